@@ -69,6 +69,7 @@ fn main() {
         "C07" => run_check::<engines::prefix::PrefixCheck>(opts),
         "C18" => run_check::<engines::addr::AddrCheck>(opts),
         "C09" => run_check::<engines::bank::BankCheck>(opts),
+        "C20" => run_check::<engines::builder::BuilderCheck>(opts),
         _ => {
             eprintln!("unknown property id {}", id);
             2
